@@ -34,6 +34,7 @@ func (s *Handler) Send(eventType string, data string) {
 	for _, f := range s.requests {
 		f := f
 		go func(f chan event) {
+			verifYield("deliver")
 			f <- event{
 				Type: eventType,
 				Data: data,
@@ -54,11 +55,13 @@ func (s *Handler) ServeHTTP(w http.ResponseWriter, r *http.Request) {
 	events := make(chan event)
 	s.requests[id] = events
 	s.m.Unlock()
+	verifYield("registered")
 	defer func() {
 		s.m.Lock()
 		defer s.m.Unlock()
 		delete(s.requests, id)
 		close(events)
+		verifYield("unregistered")
 	}()
 
 	timer := time.NewTimer(0)
